@@ -321,10 +321,13 @@ def check_document(text, acc, origin):
         if got != base:
             acc.violation('file-vs-string', case, 'TokenScanner(path) gives a different result than the same text as a string',
                           observed=got[1] if got[0] != 'ok' else _diff(got[1], base[1]) if base[0] == 'ok' else 'accepted')
-        ev_file = list(GherkinEvents(GherkinEvents.Options(True, True, True)).enum(source_event(path)))
+        try:
+            ev_file = list(GherkinEvents(GherkinEvents.Options(True, True, True)).enum(source_event(path)))
+        except Exception as e:  # noqa: BLE001
+            ev_file = 'source_event(path) / enum raised %s: %s' % (type(e).__name__, e)
         ev_str = I.events(text, uri=path)[1]
         if ev_file != ev_str:
-            acc.violation('file-vs-string', case, 'source_event(path) stream differs from the stream of the same text')
+            acc.violation('file-vs-string', case, 'source_event(path) stream differs from the stream of the same text' + (': ' + ev_file if isinstance(ev_file, str) else ''))
     finally:
         shutil.rmtree(tmp, ignore_errors=True)
 
@@ -368,6 +371,32 @@ def job_docs(kind, arg):
             text = pre + line
             check_document(text, acc, 'noisy')
             last = text
+    elif kind == 'docstrings':
+        # doc strings whose content lines are whitespace-only, of every length around the delimiter's indentation
+        d, delim = arg
+        menu = [' ' * k for k in range(0, d + 3)] + ['\t', ' \t', 'x', ' ' * d + 'x ', ' ' * (d + 2) + delim[0] * 2]
+        for a in menu:
+            for b in menu:
+                for tail in ('', '    And y\n', '\n  Scenario: t\n   text\n    * z\n'):
+                    text = 'Feature: f\n  Background:\n    Given x\n%s%s\n%s\n%s\n%s%s\n%s' % (' ' * d, delim, a, b, ' ' * d, delim, tail)
+                    check_document(text, acc, 'docstrings')
+                    last = text
+    elif kind == 'bigfiles':
+        # a multi-byte character astride every power-of-two byte offset a chunked reader could use, at every alignment
+        boundary, = arg
+        for ch in ('\u00e9', '\u20ac', '\U0001F600'):
+            nb = len(ch.encode('utf8'))
+            for o in range(1, nb):
+                for place in ('comment', 'step', 'cell'):
+                    head = {'comment': 'Feature: f\n  Scenario: s\n    Given x\n# ', 'step': 'Feature: f\n  Scenario: s\n    Given ', 'cell': 'Feature: f\n  Scenario: s\n    Given x\n      | '}[place]
+                    tailt = {'comment': '\n', 'step': ' end\n    And y\n', 'cell': ' | z |\n'}[place]
+                    pad = boundary - o - len(head.encode('utf8'))
+                    if pad < 0:
+                        continue
+                    text = head + 'a' * pad + ch + tailt
+                    assert len((head + 'a' * pad).encode('utf8')) == boundary - o
+                    check_document(text, acc, 'bigfiles')
+                    last = text[:60] + '...'
     elif kind == 'pairs':
         shard, nshards, quick = arg
         kept = 0
@@ -409,6 +438,10 @@ def run(ctx):
     nb = len(G.base_documents())
     ctx.level('model base documents x 5 layouts', [job_docs.job('base', [b]) for b in range(nb)])
     ctx.level('noisy documents: witness prefix . line', [job_docs.job('noisy', (pi,)) for pi in range(len(DS.prefixes()))])
+    ctx.level('doc strings with whitespace-only content lines around the delimiter indentation',
+              [job_docs.job('docstrings', (d, delim)) for d in (0, 1, 2, 4, 6) for delim in ('"""', '```')])
+    ctx.level('files with a multi-byte character astride a power-of-two byte offset',
+              [job_docs.job('bigfiles', (b,)) for b in ctx.pick((1024, 4096, 8192, 16384, 65536), (512, 1024, 2048, 4096, 8192, 16384, 32768, 65536, 131072, 262144, 1048576))])
     ctx.level('pairs of feature modules', [job_docs.job('pairs', (s, 64, ctx.quick)) for s in range(64)])
     n = ctx.pick(4, 6)
     ctx.level('structure documents N<=%d' % n, [job_docs.job('structure', (n, s, 192)) for s in range(192)])
